@@ -92,7 +92,7 @@ func c14AuthJudged(v string) bool {
 }
 
 func c14Run(ctx *core.Ctx) {
-	stride := 257
+	stride := 61
 	maxStr := 2
 	if ctx.Thorough() {
 		stride = 1
